@@ -348,7 +348,6 @@ func c26backlog(resp2 bool) func(x *vsched.Exec) {
 	}
 }
 
-
 // c26overlap: three Receives of the same kind on one connection with overlapping lifetimes. A (channel a) ends while
 // B (channel b) is still running; then C (channel c) starts; then b is unsubscribed. B must return nil, C must keep
 // receiving until its own channel is unsubscribed.
